@@ -244,6 +244,23 @@ end
 
 end Jomini.TextTape
 
+/-! ### `@variables` and `@[…]` interpolated expressions as scalars -/
+namespace Jomini.TextTape
+
+/-- `@name`: unquoted, `@` followed by at least one byte, no boundary byte. -/
+def Scal.IsVar (s : Scal) : Prop :=
+  s.quoted = false ∧ ∃ r, s.bytes = 64 :: r ∧ r ≠ [] ∧ ∀ c ∈ r, isBoundary c = false
+
+/-- `@[ … ]`: unquoted, everything up to and including the first `]` (blanks, operators, braces
+inside are part of the scalar). -/
+def Scal.IsInterp (s : Scal) : Prop :=
+  s.quoted = false ∧ ∃ body, s.bytes = 64 :: 91 :: (body ++ [93]) ∧ ∀ c ∈ body, c ≠ 93
+
+/-- well-formed scalar of fragment 3: an ordinary scalar, a variable or an interpolated expression. -/
+def Scal.ValidX (s : Scal) : Prop := s.Valid ∨ s.IsVar ∨ s.IsInterp
+
+end Jomini.TextTape
+
 /-! ### abstract documents, fragment 3: objects, arrays (of scalars, objects, arrays) and empty
 containers, any depth -/
 namespace Jomini.TextTape
@@ -325,14 +342,14 @@ def JVal.gap : JVal → Bytes
 mutual
 /-- layout validity of a value followed by `after`. -/
 def JValidV : JVal → Bytes → Prop
-  | .scal g s, after => Blank g ∧ s.Valid ∧ (s.quoted = false → StartsBoundary after)
+  | .scal g s, after => Blank g ∧ s.ValidX ∧ (s.quoted = false → StartsBoundary after)
   | .empty g gc, _ => Blank g ∧ Blank gc
   | .obj g g0 k g1 o v rest gc, after =>
-    Blank g ∧ Blank g0 ∧ Blank g1 ∧ Blank gc ∧ k.Valid ∧
+    Blank g ∧ Blank g0 ∧ Blank g1 ∧ Blank gc ∧ k.ValidX ∧
     (k.quoted = false → StartsBoundary (g1 ++ o.text)) ∧
     JValidV v (jrenderF rest ++ (gc ++ 125 :: after)) ∧ JValidF rest (gc ++ 125 :: after)
   | .arrS g g0 s0 rest gc, after =>
-    Blank g ∧ Blank g0 ∧ Blank gc ∧ s0.Valid ∧
+    Blank g ∧ Blank g0 ∧ Blank gc ∧ s0.ValidX ∧
     (s0.quoted = false → StartsBoundary (jrenderVs rest ++ (gc ++ 125 :: after))) ∧
     -- what follows the first scalar is not an operator (else the container would be an object)
     (∀ d2, skipWs (jrenderVs rest ++ (gc ++ 125 :: after)) = some d2 → firstFieldPeek d2 = false) ∧
@@ -346,15 +363,15 @@ def JValidV : JVal → Bytes → Prop
 def JValidF : JFields → Bytes → Prop
   | .nil, _ => True
   | .cons g0 k g1 o v rest, after =>
-    Blank g0 ∧ Blank g1 ∧ k.Valid ∧ (k.quoted = false → StartsBoundary (g1 ++ o.text)) ∧
+    Blank g0 ∧ Blank g1 ∧ k.ValidX ∧ (k.quoted = false → StartsBoundary (g1 ++ o.text)) ∧
     JValidV v (jrenderF rest ++ after) ∧ JValidF rest after
   | .consImp g0 k v rest, after =>
-    Blank g0 ∧ k.Valid ∧ v.isBraced ∧
+    Blank g0 ∧ k.ValidX ∧ v.isBraced ∧
     (k.quoted = false → StartsBoundary (jrenderV v ++ (jrenderF rest ++ after))) ∧
     JValidV v (jrenderF rest ++ after) ∧ JValidF rest after
   | .ghost g gc rest, after => Blank g ∧ Blank gc ∧ JValidF rest after
   | .consHdr g0 k g1 o gh h body rest, after =>
-    Blank g0 ∧ Blank g1 ∧ Blank gh ∧ k.Valid ∧ (k.quoted = false → StartsBoundary (g1 ++ o.text)) ∧
+    Blank g0 ∧ Blank g1 ∧ Blank gh ∧ k.ValidX ∧ (k.quoted = false → StartsBoundary (g1 ++ o.text)) ∧
     h.Valid ∧ h.quoted = false ∧ StartsBoundary (jrenderV body ++ (jrenderF rest ++ after)) ∧
     body.isContainer ∧ JValidV body (jrenderF rest ++ after) ∧ JValidF rest after
 def JValidVs : JVals → Bytes → Prop
